@@ -468,6 +468,10 @@ def peer_configs(ctx, n, salt=0):
             "pspread": rnd.choice([4, 16, 40]), "page": rnd.choice([10, 40, 200]), "pspan": rnd.choice([30, 400]),
             "pwin": rnd.choice([8, 24, 100]),
         }
+        if i % 3 == 1:
+            # the peer keeps this rank's new-colour messages in flight while a GVT round is open and runs far ahead itself: only this
+            # rank's own accumulator protects those messages
+            c.update({"phold": 1, "pwin": rnd.choice([100, 400]), "plag": rnd.choice([3, 10, 25])})
         if i % 7 == 3:
             c.update({"thr": 0, "spread": rnd.choice([2, 3, 6, 40])})  # predicates already true at LP_INIT for some LPs
         if i % 7 == 5:
@@ -559,7 +563,7 @@ def run_peer(ctx, cfg, tag):
 
 
 PEER_ORACLES = ("s_rb_mismatch", "s_below_gvt", "s_gvt_decrease", "s_gvt_disagree", "s_double_free", "s_vote_false_pred", "s_vote_uncommitted",
-                "s_remote_id_not_unique")
+                "s_remote_id_not_unique", "s_sent_count_wrong", "s_peer_below_gvt")
 
 
 def peer_matrix(ctx, n_quick, n_thorough, salt=0, jobs=12, extra_oracles=()):
